@@ -36,3 +36,33 @@ contract(F, "GenericResolver._get_type_var_to_actual", props=["C16"],
                                  f"forall(lambda i: implies(0 <= i and i < _i, {BOUND}))"])},
          scenarios=_scenarios, cover=["returned"],
          notes=["HAS_TV_TUPLE is true on the interpreter in use; TypeVarTuple variables are excluded by the precondition"])
+
+
+# ---- substitution of ONE member hint (C16: "a type variable is replaced by exactly the actual bound to it; a hint without type
+# variables is left as it is").  The third branch (`tp[...]` re-subscription of a parametrised hint) is typing reflection: excluded by
+# the precondition and decided by the bounded family of props/C16.py.  `get_type_vars_of_parametrized` is abstracted to a deterministic
+# function of its argument.
+def _param_scenarios(mod):
+    from typing import List, TypeVar
+    T, U = TypeVar("T"), TypeVar("U")
+    out = []
+    for label, mapping, tp in [("bound-T", {T: (int,), U: (str,)}, T), ("bound-U", {T: (int,), U: (str,)}, U), ("closed-int", {T: (int,)}, int),
+                               ("closed-list", {T: (int,)}, List[str]), ("empty-map", {}, bytes), ("bound-to-var", {T: (U,), U: (int,)}, T), ("two-actuals", {T: (int, str), U: (bytes,)}, T)]:
+        def factory(mapping=mapping, tp=tp):
+            r = mod.GenericResolver(lambda tp: None)
+            return mod.GenericResolver._parametrize_by_dict, {"self": r, "type_var_to_actual": dict(mapping), "tp": tp}, {}
+        out.append((label, factory))
+    return out
+
+
+GTV = "opaque_res('get_type_vars_of_parametrized', tp)"
+contract(F, "GenericResolver._parametrize_by_dict", props=["C16"],
+         params={"self": ("const", None), "type_var_to_actual": "dict", "tp": "sym"},
+         opaque={"get_type_vars_of_parametrized": (lambda m: m.get_type_vars_of_parametrized, [])},
+         requires=[f"has_key(type_var_to_actual, tp) or not truthy({GTV})",
+                   "implies(has_key(type_var_to_actual, tp), len(type_var_to_actual[tp]) >= 1)"],
+         post={"raises-nothing": "returned",
+               "bound-variable": "implies(has_key(type_var_to_actual, tp), returned and result is type_var_to_actual[tp][0])",
+               "closed-hint-untouched": "implies(not has_key(type_var_to_actual, tp), returned and result is tp)"},
+         scenarios=_param_scenarios, cover=["returned", "returned and has_key(type_var_to_actual, tp)", "returned and not has_key(type_var_to_actual, tp)"],
+         notes=["re-subscription `tp[...]` of a parametrised hint is excluded by the precondition (typing reflection; bounded family of props/C16.py)"])
